@@ -43,7 +43,8 @@ PROP = {  # keyword in subject -> (property, what failed)
  "computed in i128": ("C34", "mary: outputs 16 and 2^64-1 of one asset summed to 15 in i64 and balanced"),
  "minimum collateral is compared": ("C33", "B3 + fee = 2^63: fee * collateral_percentage overflow"),
  "summing redeemer execution units does not overflow": ("C33", "every redeemer mem = 2^63: mem += overflow in alonzo/babbage check_tx_ex_units"),
- "Plutus scripts come from reference inputs": ("C37", "babbage, conway: spend locked by a PlutusV2 script supplied by a reference input (no Plutus script in the witness set) accepted with sum(mem) = max+1: check_tx_ex_units was gated on witness-set scripts"),
+ "checks collateral for spends whose Plutus scripts": ("C38", "babbage: reference-script spend (B3ref) accepted without collateral, with 4 / script-locked / 1-lovelace collateral and with total_collateral = 1: check_fee ran check_collaterals only when the witness set carried Plutus scripts"),
+ "ex-unit budget also applies": ("C37", "babbage, conway: spend locked by a PlutusV2 script supplied by a reference input (no Plutus script in the witness set) accepted with sum(mem) = max+1: check_tx_ex_units was gated on witness-set scripts"),
  "check_tx_ex_units sums": ("C37", "conway: sum(mem) = max+1 accepted, the lazy map never ran"),
  "legacy output holding an asset with quantity 0": ("C33", "conway: legacy-form output / collateral return with an asset of quantity 0 hit PositiveCoin::try_from(0).unwrap()"),
  "instead of hitting unimplemented": ("C33", "babbage validator given a Conway-era UTxO entry hit unimplemented!()"),
